@@ -13,6 +13,9 @@ class ILOpsHolder:
     def __init__(self):
         # Total count of hybrids seen during transformation
         self.hybrid_op_count = 0
+        # Prefix of the names of hybrid temporaries (set for sub-routine bodies, which share
+        # the variable namespace of their callers).
+        self.hybrid_tmp_prefix = ""
         self.hybrid_effect_dict: dict[str:Sequence] = dict()
         self.read_ops: dict = dict()
         self.exec_ops: dict = dict()
